@@ -48,7 +48,7 @@ def tset(xs) -> str:
 
 def dom(**kw) -> dict:
     base = dict(ALLOWFORCE=AF4, RESOLVES=["off"], STUBMODES=["none"], LAYOUTS=["flat", "chain"], TOPS=TOPS6, KIDSA=K4, KIDSB=K4,
-                TOPFAULTS=F4, KIDFAULTS=F4, EXTFAULTS=["none"], EXTSTYLES=["none"], EXTPRIVATES=[False], EXTKINDS=["missing"], PATHMUTS=["none"])
+                TOPFAULTS=F4, KIDFAULTS=F4, EXTFAULTS=["none"], EXTSTYLES=["none"], EXTPRIVATES=[False], EXTKINDS=["missing"], PATHMUTS=["none"], SUBMODS=[True], OBJSPECS=["name"])
     base.update(kw)
     return base
 
@@ -57,15 +57,19 @@ def dom(**kw) -> dict:
 DOMAINS = {
     "quick": {
         # agent ladder x module tables over two layouts x fault placement (reduced fault kinds: the full product is the thorough tier's)
-        "ladder": dom(KIDSB=["py", "so", "missing"], TOPFAULTS=["none", "missingdep"], KIDFAULTS=["none", "exit"]),
+        "ladder": dom(KIDSA=["py", "so", "missing"], KIDSB=["py", "so", "missing"], TOPFAULTS=["none", "missingdep"], KIDFAULTS=["none", "exit"]),
         # every fault kind on every executable module of a flat package with one sub-module
         "faultkinds": dom(LAYOUTS=["flat"], KIDSA=["py", "so"], KIDSB=["missing"], TOPS=["py", "so", "sofile"]),
-        # every module suffix the finder yields: importable compiled (so) and foreign compiled (xc) kinds everywhere, no faults
-        "suffixes": dom(TOPS=["py", "pyi", "so", "xc", "ns"], KIDSA=["py", "so", "xc", "missing"], KIDSB=["py", "so", "xc", "missing"],
-                        TOPFAULTS=["none"], KIDFAULTS=["none"]),
+        # every module suffix the finder yields: importable compiled (so), foreign compiled (xc), source with a stub file next to it
+        # (both), everywhere in both layouts, no faults
+        "kinds": dom(TOPS=["py", "so", "xc", "ns"], KIDSA=["py", "pyi", "both", "so", "xc", "missing"], KIDSB=["pyi", "both", "so", "xc", "missing"],
+                     TOPFAULTS=["none"], KIDFAULTS=["none"]),
         # module bodies that modify sys.path in place / rebind it, then succeed or fail
         "pathmut": dom(ALLOWFORCE=["a-", "-f"], PATHMUTS=["inplace", "rebind"], TOPS=["py", "so", "sofile"], KIDSA=["py", "so", "missing"],
                        KIDSB=["so", "missing"], TOPFAULTS=["none", "raises"], KIDFAULTS=["none", "exit"]),
+        # the other call forms: submodules=False, relative path string, pathlib.Path; source modules with a stub file next to them
+        "callforms": dom(SUBMODS=[False, True], OBJSPECS=["name", "relpath", "abspath"], LAYOUTS=["flat"], KIDSA=["both", "so", "missing"], KIDSB=["missing"],
+                         TOPFAULTS=["none", "exit"], KIDFAULTS=["none", "raises"]),
         # stubs: in-package __init__.pyi, stubs-only package with / without find_stubs_package
         "stubs": dom(STUBMODES=["inpkg", "ext", "find", "find+ext"], LAYOUTS=["flat"], KIDSA=["py", "so", "missing"], KIDSB=["missing"],
                      TOPFAULTS=["none", "raises"], KIDFAULTS=["none", "missingdep"]),
@@ -77,9 +81,14 @@ DOMAINS = {
     "thorough": {
         # the full product: every kind of p / a / b in both layouts x every fault kind on every executable module
         "ladder": dom(),
-        "suffixes": dom(TOPS=["py", "pyi", "so", "xc", "ns"], KIDSA=K5, KIDSB=K5, TOPFAULTS=["none"], KIDFAULTS=["none", "raises"]),
-        "pathmut": dom(ALLOWFORCE=["a-", "-f", "af"], PATHMUTS=["inplace", "rebind"], TOPS=["py", "so", "sofile", "ns"], KIDSA=["py", "so", "missing"],
-                       KIDSB=["py", "so", "missing"]),
+        "kinds": dom(TOPS=["py", "pyi", "so", "xc", "ns"], KIDSA=K5, KIDSB=K5, TOPFAULTS=["none"], KIDFAULTS=["none", "raises"]),
+        "pathmut": dom(ALLOWFORCE=["a-", "-f"], PATHMUTS=["inplace", "rebind"], TOPS=["py", "so", "sofile", "ns"], KIDSA=["py", "so", "missing"],
+                       KIDSB=["py", "so", "missing"], KIDFAULTS=["none", "raises", "exit"]),
+        "callforms": dom(SUBMODS=[False, True], OBJSPECS=["name", "relpath", "abspath"], STUBMODES=["none", "inpkg"], LAYOUTS=["flat"],
+                         TOPS=["py", "pyi", "so", "xc", "ns", "sofile", "missing"], KIDSA=["both", "py", "so", "missing"], KIDSB=["missing", "so"],
+                         TOPFAULTS=["none", "exit"], KIDFAULTS=["none", "raises"]),
+        "siblings": dom(KIDSA=["both", "py", "pyi", "so", "missing"], KIDSB=["both", "so", "missing"], TOPS=["py", "pyi", "ns", "so"],
+                        TOPFAULTS=["none", "raises"], KIDFAULTS=["none", "raises", "exit"]),
         "stubs": dom(STUBMODES=["inpkg", "ext", "find", "find+ext"], KIDSA=["py", "pyi", "so", "missing"], KIDSB=["missing", "so"],
                      TOPFAULTS=["none", "raises", "exit"], KIDFAULTS=["none", "missingdep"]),
         "external": dom(RESOLVES=["off", "off+true", "true", "false", "none"], STUBMODES=["none", "inpkg", "find+ext"], LAYOUTS=["flat"],
@@ -127,7 +136,7 @@ def mode_of(cfg: dict) -> str:
 
 def file_of(cfg: dict, m: str) -> str:
     if m in ("p", "a", "b"):
-        return cfg["file"][m]
+        return "py" if cfg["file"][m] == "both" else cfg["file"][m]
     if m == "q":
         return "missing" if cfg["extstyle"] == "none" else cfg["extkind"]
     return "pyi"
@@ -195,7 +204,7 @@ def clauses(cfg: dict, r: dict) -> list:
         elif e["ev"] == "ExitSysPath":
             depth -= 1
             if not e["restored"]:
-                bad.append(("exit-restores-path", f"sys_path exit ({e['by']}) left sys.path bound to the replacement list"))
+                bad.append(("exit-restores-path", f"sys_path exit ({e['by']}) did not put the saved sys.path back"))
         elif e["ev"] in ("LoadReturn", "LoadRaise") and not (e["path_same"] and e["path_equal"] and e["saved"] == 0):
             bad.append(("path-restored-after-load", f"sys.path not restored when load({e['pkg']}) ended ({e['ev']})"))
         elif e["ev"] == "LoadExtensions" and e["touched"]:
@@ -205,7 +214,7 @@ def clauses(cfg: dict, r: dict) -> list:
             break
     if depth != 0 and not any(b[0] == "balanced" for b in bad):
         bad.append(("balanced", f"sys_path entered {depth} more time(s) than exited"))
-    if r["outcome"] not in LEGAL_OUTCOMES:
+    if r["outcome"] not in LEGAL_OUTCOMES and not (r["outcome"] == "FileNotFoundError" and cfg.get("objspec") == "abspath" and not r["executed"]):
         bad.append(("outcome-class", f"griffe.load ended with {r['outcome']}: {r.get('tb', '')[-300:]}"))
     seen, uniq = set(), []
     for b in bad:
@@ -216,7 +225,7 @@ def clauses(cfg: dict, r: dict) -> list:
 
 
 def real_terminal(r: dict) -> dict:
-    agent = {m: "none" for m in ("p", "a", "b", "q", "s")}
+    agent = {m: "none" for m in ("p", "a", "b", "q", "s", "as", "bs")}
     for e in r["events"]:
         if e["ev"] == "ChooseAgent" and e["m"] in agent:
             agent[e["m"]] = e["agent"]
@@ -378,7 +387,7 @@ def selftest_model_bugs(run: Run):
 def sig_of(cfg: dict, clause: str, r: dict) -> dict:
     return {"clause": clause, "mode": mode_of(cfg), "top": cfg["file"]["p"], "stubs": cfg["stubs"] + ("+find" if cfg["findstubs"] else ""),
             "ext": cfg["extstyle"] if cfg["extstyle"] == "none" else cfg["extstyle"] + ":" + cfg["extkind"], "pathmut": cfg.get("pathmut", "none"),
-            "outcome": r["outcome"]}
+            "call": cfg.get("objspec", "name") + ("" if cfg.get("submodules", True) else "+nosub"), "outcome": r["outcome"]}
 
 
 def judge(run: Run, case: dict, r: dict, variants: list | None) -> tuple:
@@ -444,7 +453,7 @@ def _main(run: Run, tier: str, rnd: random.Random, workdir: str, ext_so):
             parts = [[a] for a in afs] if tier == "thorough" else [afs]
             for part in parts:
                 jobs[name, tuple(part)] = pool.submit(tlc.run, "LoadProtocol", "LoadProtocol_check.cfg", workers=2 if tier == "quick" else 4,
-                                                      constants=consts(dict(d, ALLOWFORCE=part)), deadlock=True, coverage=True, timeout=3000, heap="3g", env=JVM_MAIN)
+                                                      constants=consts(dict(d, ALLOWFORCE=part)), deadlock=True, coverage=tier == "thorough", timeout=3000, heap="3g", env=JVM_MAIN)
         bugs_job = pool.submit(selftest_model_bugs, run)
     spec = {}
     per_domain = {}
@@ -463,10 +472,11 @@ def _main(run: Run, tier: str, rnd: random.Random, workdir: str, ext_so):
         for act, (_d, total) in res.coverage.items():
             fired[act] = fired.get(act, 0) + total
     bugs_job.result()
-    never = [a for a in ACTIONS if not fired.get(a)]
-    if never:
-        die(f"C15: vacuous model: action(s) {never} never taken in any domain")
-    run.extra["action_coverage"] = {a: fired[a] for a in ACTIONS}
+    if tier == "thorough":         # TLC's own action coverage (costs ~40 % CPU: thorough only; quick counts the validated events below)
+        never = [a for a in ACTIONS if not fired.get(a)]
+        if never:
+            die(f"C15: vacuous model: action(s) {never} never taken in any domain")
+        run.extra["action_coverage"] = {a: fired[a] for a in ACTIONS}
     run.extra["cases_per_domain"] = {k: len(v) for k, v in per_domain.items()}
     run.extra["cases_with_order_dependent_terminal_state"] = sum(1 for v in spec.values() if len(v) > 1)
     if len(spec) < 1000:
@@ -544,6 +554,19 @@ def _main(run: Run, tier: str, rnd: random.Random, workdir: str, ext_so):
     if missing:
         die(f"C15: trace validation produced no verdict for {len(missing)} trace(s), e.g. tid {missing[:3]}")
     run.replayed(accepted)
+    # vacuity: every action of the spec must have fired on accepted real traces (each validated event = one action taken by TLC)
+    acc = {ln["tid"] for ln in lines if verdicts.get(ln["tid"], {}).get("verdict") == "accept"}
+    seen_ev = {}
+    for ln in lines:
+        if ln["tid"] in acc:
+            for e in ln["events"]:
+                name = "StubPass" if (e["ev"] == "ChooseAgent" and e["m"] == "s" and any(x["ev"] == "Submodule" or x["ev"] == "Visit" or x["ev"] == "Inspected" for x in ln["events"][:ln["events"].index(e)])) else e["ev"]
+                seen_ev[name] = seen_ev.get(name, 0) + 1
+    seen_ev["LoadMain"] = seen_ev.pop("Load", 0)
+    never = [a for a in ACTIONS if not seen_ev.get(a)]
+    if never and not run.violations:
+        die(f"C15: vacuous binding: no accepted real trace contains the action(s) {never}")
+    run.extra["validated_events_per_action"] = {a: seen_ev.get(a, 0) for a in ACTIONS}
     run.extra.update(traces_recorded=len(lines), traces_accepted=accepted, traces_rejected=len(rejected), events_validated=sum(len(ln["events"]) for ln in lines))
     by_id = {c["id"]: c for c in cases}
     unexplained = 0
